@@ -190,10 +190,20 @@ def firChannel (cur : Bool) (nPad : Nat) (evPad : Nat â†’ Int) (dataPad : Nat â†
   | none => .error "singular"
   | some x => .ok x
 
-def showRatAsFloat (q : Rat) : String := showFloat (F64.toFloat q)
+/-- `F64.toFloat` rounds in the NORMAL range only; recordings at amplitude 1e-300 leave rounding dust
+    below 2^-1022 in the exact estimate, which is rounded here on the subnormal grid (multiples of
+    2^-1074, ties to even; 2^52 grid steps = the smallest normal number, same bit layout) -/
+def toFloatSub (q : Rat) : Float :=
+  let a := if q < 0 then -q else q
+  if a < F64.pow2 (-1022) then
+    let m := F64.rint (a / F64.pow2 (-1074))
+    Float.ofBits (UInt64.ofNat ((if q < 0 then 2^63 else 0) + m.toNat))
+  else F64.toFloat q
+
+def showRatAsFloat (q : Rat) : String := showFloat (toFloatSub q)
 
 def semOut (cnt : Nat) (q : Rat) : String :=
-  if cnt â‰¤ 1 then showFloat (0.0 / 0.0) else showFloat (Float.sqrt (F64.toFloat q))
+  if cnt â‰¤ 1 then showFloat (0.0 / 0.0) else showFloat (Float.sqrt (toFloatSub q))
 
 structure Job where
   what : String
